@@ -143,10 +143,12 @@ pub fn run(tier: &str, seed: u64) -> Report {
                   .map(|t| crate::c14::chain_facts(&g, &slot_keys, t).entry_on_source())
                   .unwrap_or(false)
               });
-              let shape = if g.redirects.contains_key(m.specifier()) || chain_has_slot_on_source || types_chain_has_slot_on_source {
-                "slot-on-redirect-source"
-              } else if f19_possible {
+              // (F12 — an entry on a redirect source — is repaired; the shape stays so that a recurrence
+              // is named, behind the open finding F19 whose trigger is the wider one)
+              let shape = if f19_possible {
                 "types-only-segment-omits-untyped-module-with-types-dependency"
+              } else if g.redirects.contains_key(m.specifier()) || chain_has_slot_on_source || types_chain_has_slot_on_source {
+                "slot-on-redirect-source"
               } else {
                 "segment-resolves-dependency-differently"
               };
